@@ -4,6 +4,7 @@ From V Require Import Common.Base C01.Utf C01.Quote C01.SpecLiteral C01.QuotePro
 From V Require Import C01.Num C01.SpecNumeric C01.NumProofs C01.NumProofs2 C01.ScriptProofs.
 From V Require Import C13.Token C13.ParseSpec C01.CommaTrace.
 From V Require Import gen.IdTablesGen C01.Keys C01.KeysProofs.
+From V Require Import C01.Template C01.TemplateProofs.
 
 (* printQuotedUTF16: for EVERY sequence of UTF-16 code units (lone surrogates
    included), every configuration (charset, unicode-escape support,
@@ -183,3 +184,46 @@ Theorem string_key_identity : forall cfg prefer_quoted key,
   all_u16 key -> exists out, print_string_key cfg prefer_quoted key = Some out /\ key_value out = Some key.
 Proof. exact string_key_identity_all. Qed.
 Print Assumptions string_key_identity.
+
+(* ---- templates with substitutions, BigInt, regular expressions ---- *)
+
+(* an untagged template literal with any number of substitutions: for EVERY
+   cooked head and tails (all UTF-16 sequences, lone surrogates included),
+   every configuration and every column, the code points printed (each
+   `${ expression }` standing as one marker) are split by the ECMA-262
+   template lexical grammar (TemplateHead / Middle / Tail, TV with CR/CRLF
+   cooking, `$` not followed by `{`, \0 not followed by a digit, line
+   continuations from --line-limit) into exactly the cooked chunks.  What the
+   expressions print as is outside this theorem. *)
+Theorem template_roundtrip : forall cfg prefix head tails,
+  all_u16 head -> Forall all_u16 tails ->
+  template_value (template_cps cfg prefix head tails) = Some (head :: tails).
+Proof. exact template_roundtrip_all. Qed.
+Print Assumptions template_roundtrip.
+
+(* under the ASCII charset everything the template printer emits outside the
+   substitutions is below 128 *)
+Theorem template_ascii : forall cfg prefix head tails,
+  ascii_only cfg = true -> all_u16 head -> Forall all_u16 tails ->
+  Forall (fun x => x = SUBST \/ 0 <= x < 128) (template_cps cfg prefix head tails).
+Proof. exact template_cps_ascii. Qed.
+Print Assumptions template_ascii.
+
+(* BigInt and regular expression literals are printed verbatim (digits / body
+   and flags byte for byte), preceded by at most one space *)
+Theorem bigint_printed_verbatim : forall js v,
+  exists sp, print_bigint js v = sp ++ v ++ [110] /\ (sp = [] \/ sp = [32]).
+Proof. exact bigint_verbatim. Qed.
+Print Assumptions bigint_printed_verbatim.
+Theorem regexp_printed_verbatim : forall cfg js v,
+  exists sp, print_regexp cfg js v = sp ++ v /\ (sp = [] \/ sp = [32]).
+Proof. exact regexp_verbatim. Qed.
+Print Assumptions regexp_printed_verbatim.
+(* ... and the space is there whenever the previous byte is "/" (no line
+   comment, on every platform: /repo fix c46361e) or, with the inline-script
+   guard, "<" before a text starting with /script in any ASCII case *)
+Theorem regexp_boundary_guard : forall cfg js last v,
+  print_regexp cfg (js ++ [last]) v = [32] ++ v \/
+  (last <> 47 /\ (script_guard cfg = true -> last = 60 -> starts_slash_script v = false)).
+Proof. exact regexp_guard. Qed.
+Print Assumptions regexp_boundary_guard.
